@@ -383,6 +383,9 @@ def pattern_pool():
         ('MCall(func=NOT(MName(f)))', lambda: MCall(func=MNOT(MName('f')))), ('NOT(MBinOp)', lambda: MNOT(MBinOp())),
         ('OR(NOT(MAttribute(attr=b)),If)', lambda: MOR(MNOT(MAttribute(attr='b')), ast.If)), ('...', lambda: ...),
         ('NOT(OR(Name,MConstant(1)))', lambda: MNOT(MOR(ast.Name, MConstant(1)))), ('expr', lambda: ast.expr), ('NOT(stmt)', lambda: MNOT(ast.stmt)),
+        # expression contexts as patterns (without ctx=True every context matches every context pattern) and primitive types (valid patterns no node is an instance of)
+        ('Load()', lambda: ast.Load()), ('Store()', lambda: ast.Store()), ('expr_context', lambda: ast.expr_context), ('OR(Load(),Name)', lambda: MOR(ast.Load(), ast.Name)), ('NOT(Load())', lambda: MNOT(ast.Load())),
+        ('str', lambda: str), ('OR(str,Name)', lambda: MOR(str, ast.Name)), ('NOT(str)', lambda: MNOT(str)), ('AND(int,Name)', lambda: MAND(int, ast.Name)), ('MTYPES(Load,Store)', lambda: MTYPES((ast.Load, ast.Store))),
     ]
 
 
@@ -392,7 +395,7 @@ def stage_search(ctx: Ctx, progs):
     pool = pattern_pool()
     for pi, src in enumerate(progs):
         root = fst.FST(src, 'exec')
-        for name, mk in (pool if ctx.thorough else rng.sample(pool, 8)):
+        for name, mk in (pool if ctx.thorough else rng.sample(pool[:-10], 8) + (pool[-10:] if pi < 3 else rng.sample(pool[-10:], 2))):
             pat = mk()
             try:
                 got = [m.matched for m in root.search(pat, nested=True)]
